@@ -195,57 +195,124 @@ def run(ctx):
             ok = ok and any(isinstance(n, ast.AugAssign) and A.norm(n.value) == f"[{rw.target.elts[1].id}]" for n in cur.orelse)
             break
     ctx.check("C08.I", "rewrite-loop:every-instruction-kept-or-expanded", ok, "not every arm of the rewrite appends exactly one expansion (non-gate instructions must be kept as they are, in order)", repo.loc(m, rw))
-    # ---- C08.E
-    rl = loops[1]
-    ok_rl = A.norm(rl.iter) == "new_commands"
-    ctx.check("C08.E", "retarget-loop:over-new-commands", ok_rl, f"jump targets are rewritten while iterating `{src(rl.iter)}`", repo.loc(m, rl), trivial=True)
-    inner = [n for n in nv_if.body if isinstance(n, ast.If)]
-    ok_e = False
-    detail = "no `target == old length` test"
-    flag = None
-    if inner:
-        t = inner[0]
-        defs = {st.targets[0].id: st.value for st in nv_if.body if isinstance(st, ast.Assign) and isinstance(st.targets[0], ast.Name)}
-        test = A.norm(A.expand(t.test, defs))
-        iv = rl.target.id
-        eq_old = test in (f"{iv}.line.value==len(self._subroutine.instructions)", f"len(self._subroutine.instructions)=={iv}.line.value")
-        sets_flag = [st for st in t.body if isinstance(st, ast.Assign) and isinstance(st.value, ast.Constant) and st.value.value is True]
-        to_end = [st for st in t.body if isinstance(st, ast.Assign) and A.norm(st.targets[0]) == f"{iv}.line" and A.norm(st.value) == "Immediate(len(new_commands))"]
-        through = [st for st in t.orelse if isinstance(st, ast.Assign) and A.norm(st.targets[0]) == f"{iv}.line" and A.norm(A.expand(st.value, defs)) == f"Immediate(index_changes[{iv}.line.value])"]
-        flag = sets_flag[0].targets[0].id if sets_flag else None
-        ok_e = eq_old and len(sets_flag) == 1 and len(to_end) == 1 and len(through) == 1
-        detail = f"test `{src(t.test)}`, end arm {[src(s) for s in t.body]}, other arm {[src(s) for s in t.orelse]}"
-    ctx.check("C08.E", "retarget:past-the-end-and-ordinary-targets", ok_e,
-              f"jump retargeting: {detail}; expected: target == old length -> flag set and line = len(new_commands); otherwise line = index_changes[old target]", repo.loc(m, nv_if),
-              sample={"retarget": detail[:200]})
-    # no-op appended iff flag
-    appended = False
-    for st in tp.body:
-        if isinstance(st, ast.If) and flag and A.norm(st.test) == flag:
-            appended = any(isinstance(n, ast.AugAssign) and A.norm(n.target) == "new_commands" for n in st.body) and not st.orelse
-    init_false = any(isinstance(st, ast.Assign) and flag and A.norm(st.targets[0]) == flag and isinstance(st.value, ast.Constant) and st.value.value is False for st in tp.body)
-    ctx.check("C08.E", "retarget:no-op-appended-iff-flag", appended and init_false, "the trailing no-op is not appended exactly when a jump targeted the position just past the end", repo.loc(m, tp))
-    # the retargeting must happen after all instructions were rewritten (second loop after the first) and the result stored
-    stored = any(isinstance(st, ast.Assign) and A.norm(st.targets[0]) == "self._subroutine.instructions" and A.norm(st.value) == "new_commands" for st in tp.body)
     # the index map describes new_commands as the rewrite loop built it: afterwards the list may only grow at its end (the no-op)
     edits = []
+    order_ = {id(x): k for k, top in enumerate(tp.body) for x in ast.walk(top)}
+    rw_k = tp.body.index(rw)
+    later_loops = [k for k, top in enumerate(tp.body) if isinstance(top, ast.For) and k > rw_k]
+    rl_k = later_loops[0] if later_loops else len(tp.body)
     for st in A.body_nodes(tp):
         inside_rw = any(st is x for x in ast.walk(rw))
         if isinstance(st, ast.Assign) and any(A.norm(t_) == "new_commands" for t_ in st.targets):
-            if not (isinstance(st.value, ast.List) and not st.value.elts and st.lineno < rw.lineno):
+            if not (isinstance(st.value, ast.List) and not st.value.elts and order_.get(id(st), 1 << 30) < rw_k):
                 edits.append(src(st)[:80])
         elif isinstance(st, ast.AugAssign) and A.norm(st.target) == "new_commands":
-            if not (isinstance(st.op, ast.Add) and (inside_rw or st.lineno > rl.lineno)):
+            if not (isinstance(st.op, ast.Add) and (inside_rw or order_.get(id(st), -1) > rl_k)):
                 edits.append(src(st)[:80])
         elif isinstance(st, (ast.Assign, ast.Delete)) and any(isinstance(t_, ast.Subscript) and A.norm(t_.value) == "new_commands" for t_ in (st.targets)):
             edits.append(src(st)[:80])
         elif isinstance(st, ast.Call) and isinstance(st.func, ast.Attribute) and A.norm(st.func.value) == "new_commands" and st.func.attr in ("remove", "pop", "insert", "sort", "reverse", "clear", "extend", "append"):
-            if not (st.func.attr in ("append", "extend") and (inside_rw or st.lineno > rl.lineno)):
+            if not (st.func.attr in ("append", "extend") and (inside_rw or order_.get(id(st), -1) > rl_k)):
                 edits.append(src(st)[:80])
     ctx.check("C08.I", "rewrite-result:only-appended-to", not edits,
               f"the rewritten command list is changed other than by appending expansions in the rewrite loop ({'; '.join(edits)}): the old->new index map was recorded against the list "
               "as the loop built it, so removing or inserting commands afterwards shifts every later jump target", repo.loc(m, tp), sample={"other_edits": edits})
-    ctx.check("C08.E", "transpile:result-stored", stored and tp.body.index(rl) > tp.body.index(rw), "the rewritten command list is not stored back (or targets are patched before the rewrite finished)", repo.loc(m, tp), trivial=True)
+    # ---- C08.I / C08.E  (abstract execution, nqsa/circuit.py)
+    # transpile() is executed on small programs with the two gate handlers modelled (a single-qubit gate becomes 2 marker
+    # instructions, a two-qubit gate 3); whatever the method is written as, the stored result must be the in-order concatenation of
+    # kept instructions and expansions, every jump must point at the first command of its old target's expansion, a jump to the
+    # position just past the end must point just past the new end, and a trailing no-op is appended exactly when there is such a jump.
+    from .. import circuit as C
+    from ..model import EnumMember
+    rn = repo.get_class("netqasm.lang.encoding", "RegisterName")
+    rmem = ev.enum_members(rn)
+    R_ = repo.get_class("netqasm.lang.operand", "Register")
+    corem = repo.module(I.CORE_MOD)
+    vanm = repo.module("netqasm.lang.instr.vanilla")
+
+    def reg(name, index):
+        return C.Obj(R_, {"name": EnumMember(rn.qualname, name, rmem[name]), "index": index})
+
+    def program(with_end_jump):
+        q0, q1, r1, r2 = reg("Q", 0), reg("Q", 1), reg("R", 1), reg("R", 2)
+        prog = [
+            C.Obj(corem.classes["SetInstruction"], {"reg": q0, "imm": C.Imm(5)}),
+            C.Obj(vanm.classes["GateXInstruction"], {"reg": q0}),
+            C.Obj(corem.classes["BezInstruction"], {"reg": r1, "imm": C.Imm(5)}),
+            C.Obj(vanm.classes["CnotInstruction"], {"reg0": q0, "reg1": q1}),
+            C.Obj(corem.classes["JmpInstruction"], {"imm": C.Imm(7 if with_end_jump else 1)}),
+            C.Obj(vanm.classes["GateHInstruction"], {"reg": q0}),
+            C.Obj(corem.classes["BeqInstruction"], {"reg0": r1, "reg1": r2, "imm": C.Imm(0)}),
+        ]
+        return prog
+
+    res = {"order": True, "targets": True, "end": True, "noop": True, "stored": True}
+    why = {}
+    try:
+        for with_end_jump in (True, False):
+            prog = program(with_end_jump)
+            sc = C.Scenario()
+            expansions = {}
+
+            def single(instr=None, *a_, expansions=expansions, **k_):
+                expansions[id(instr)] = [C.Obj(None, {"expansion_of": instr, "k": j}) for j in range(2)]
+                return list(expansions[id(instr)])
+
+            def two(instr=None, *a_, expansions=expansions, **k_):
+                expansions[id(instr)] = [C.Obj(None, {"expansion_of": instr, "k": j}) for j in range(3)]
+                return list(expansions[id(instr)])
+
+            sc.overrides["_handle_single_qubit_gate"] = single
+            sc.overrides["_handle_two_qubit_gate"] = two
+            sub = C.Obj(None, {"instructions": list(prog)})
+            o = C.object_from_init(repo, nvt, {"_subroutine": sub, "_used_registers": set(), "_register_values": {}, "_debug": False}, kind="self")
+            C.Interp(repo, ev, sc, nvt).call_function(m, tp, [], {}, self_obj=o)
+            out = sub.fields.get("instructions")
+            want = []
+            first = {}
+            for k, ins_ in enumerate(prog):
+                first[k] = len(want)
+                want.extend(expansions.get(id(ins_), [ins_]))
+            n_new = len(want)
+            if not isinstance(out, list):
+                res["stored"] = False
+                why["stored"] = f"the result stored is {out!r}"
+                continue
+            body = out[:n_new]
+            if len(body) != n_new or any(a_ is not b_ for a_, b_ in zip(body, want)):
+                res["order"] = False
+                why["order"] = f"{len(out)} commands stored; expected the {n_new} kept / expanded commands in order"
+                continue
+            tail = out[n_new:]
+            jumps = {2: 5, 4: (7 if with_end_jump else 1), 6: 0}
+            for k, old_t in jumps.items():
+                line = prog[k].fields.get("imm")
+                got_t = line.value if isinstance(line, C.Imm) else line
+                if old_t == len(prog):
+                    if got_t != n_new:
+                        res["end"] = False
+                        why["end"] = f"a jump to the position just past the end ({old_t}) now points at {got_t}; the new end is {n_new}"
+                elif got_t != first[old_t]:
+                    res["targets"] = False
+                    why["targets"] = f"the jump at {k} to old line {old_t} now points at {got_t}; the expansion of line {old_t} starts at {first[old_t]}"
+            is_noop = len(tail) == 1 and isinstance(tail[0], C.Obj) and tail[0].cls is not None and tail[0].cls.name == "SetInstruction"
+            if (with_end_jump and not is_noop) or (not with_end_jump and tail):
+                res["noop"] = False
+                why["noop"] = f"with{'' if with_end_jump else 'out'} a jump past the end the commands after the rewritten program are {tail!r}"
+    except C.EvalRaise as ex_:
+        for k_ in res:
+            res[k_] = False
+            why[k_] = f"raises {ex_}"
+    except AnalysisError as ex_:
+        ctx.error("C08.I", f"NV transpile() cannot be evaluated: {ex_}")
+        res = None
+    if res is not None:
+        ctx.check("C08.I", "transpile:sample-programs:jumps-follow-their-targets", res["targets"] and res["order"],
+                  f"after the rewrite a jump does not point at the first command its old target was expanded into ({why.get('targets') or why.get('order')})", repo.loc(m, tp))
+        ctx.check("C08.I", "transpile:sample-programs:kept-and-expanded-in-order", res["order"], f"the rewritten program is not the in-order concatenation of kept instructions and expansions: {why.get('order')}", repo.loc(m, tp))
+        ctx.check("C08.E", "retarget:past-the-end-and-ordinary-targets", res["end"] and res["targets"], f"jump retargeting: {why.get('end') or why.get('targets')}", repo.loc(m, nv_if))
+        ctx.check("C08.E", "retarget:no-op-appended-iff-flag", res["noop"], f"the trailing no-op is not appended exactly when a jump targeted the position just past the end: {why.get('noop')}", repo.loc(m, tp))
+        ctx.check("C08.E", "transpile:result-stored", res["stored"], f"the rewritten command list is not stored back: {why.get('stored')}", repo.loc(m, tp), trivial=True)
     # REIDS: same past-the-end handling
     ok_r = False
     rdefs = A.single_defs(rt)
